@@ -34,9 +34,9 @@ def correspondence(tier, rng):
     return kernels.add_bcd_kernel_corr(base, rng, 140 if tier == "quick" else 840, "C19k")
 
 
-def degenerate(rng, X, y, ykind):
+def degenerate(rng, X, y, ykind, kind=None):
     n, p = X.shape
-    kind = rng.choice(["zero-col", "dup-col", "const-col", "p>n", "one-feature", "const-y", "zero-y", "scales", "zero-sum-cols", "const+contrasts"])
+    kind = kind or rng.choice(["zero-col", "dup-col", "const-col", "p>n", "one-feature", "const-y", "zero-y", "scales", "zero-sum-cols", "const+contrasts"])
     X = X.copy()
     if kind == "zero-col":
         X[:, rng.randrange(p)] = 0.0
@@ -76,10 +76,22 @@ def oracle(tier, rng, deep=False):
     failures, samples = [], []
     ev = nontriv = 0
     nrep = 2 if tier == "quick" and not deep else (6 if tier == "quick" else 12)   # quick + broken obligation: 3x the quick search
-    for _ in range(nrep):
-        for spec in compos.menu(rng, degenerate):
+    sparse_ok = ("AndersonCD", "GroupBCD", "MultiTaskBCD", "GramCD", "FISTA", "ProxNewton")
+
+    def specs():
+        for _ in range(nrep):
+            for spec in compos.menu(rng, degenerate):
+                yield spec, None
+        # targeted pass: every composition that accepts CSC input, on a design whose all-zero column is STORED (explicit zeros,
+        # as zeroing a column of a CSC matrix in place leaves it; compos.build stores them for even seeds), cold, dense then CSC
+        for spec in compos.menu(rng, lambda r, X_, y_, k_: degenerate(r, X_, y_, k_, kind="zero-col")):
+            if spec["solver"] in sparse_ok:
+                yield dict(spec, seed=spec["seed"] - spec["seed"] % 2), [(False, False), (True, False)]
+
+    for spec, forced in specs():
+        if True:
             X = np.array(spec["X"])
-            variants = [(sp_, wm_) for sp_ in ([False, True] if spec["solver"] in ("AndersonCD", "GroupBCD", "MultiTaskBCD", "GramCD", "FISTA") else [False])
+            variants = forced or [(sp_, wm_) for sp_ in ([False, True] if spec["solver"] in ("AndersonCD", "GroupBCD", "MultiTaskBCD", "GramCD", "FISTA", "ProxNewton") else [False])
                         for wm_ in ([False, True] if spec["solver"] in ("AndersonCD", "ProxNewton", "GroupBCD", "GramCD", "MultiTaskBCD") else [False])]
             by_variant = {}
             for sp_, wm_ in variants:
